@@ -428,7 +428,10 @@ class _InternalBaseTracer(_InternalBaseTracerSuper, metaclass=MetaTracerStateMac
     def _call_existing_tracer(
         self, existing_tracer, frame: FrameType, evt: str, arg: Any, **kwargs
     ):  # pragma: no cover
-        if existing_tracer is None:
+        if existing_tracer is None or self.existing_tracer is None:
+            # nothing to compose with, or user code has since uninstalled the
+            # trace function with sys.settrace(None): the interpreter would no
+            # longer call its local trace functions either
             return None
         orig_sys_tracer = sys_gettrace()
         existing_ret = existing_tracer(frame, evt, arg, **kwargs)
